@@ -69,6 +69,13 @@ def ustrT (pad : Nat) (s : Str) : B :=
   let body := Unicode.be32 (Unicode.encUnits s).length ++ Unicode.bytesOfUnits (Unicode.encUnits s)
   body ++ zeros (padAmount body.length pad)
 
+/-- `write_unicode_string(fp, s, padding=pad)` with its `written` accumulator -/
+def wUStr (pad : Nat) (s : Str) : W :=
+  let a := wBytes (Unicode.be32 (Unicode.encUnits s).length)       -- write_fmt(fp, "I", len(data) // 2)
+  let b := wBytes (Unicode.bytesOfUnits (Unicode.encUnits s))      -- write_bytes(fp, data)
+  let written := a +> b
+  written +> wPad written.2 pad
+
 /-- `write_unicode_string` raises nothing but `struct.error` (a count ≥ 2³²) for a `str` -/
 def UStrFits (s : Str) : Prop := Unicode.PyStr s ∧ (Unicode.encUnits s).length < 4294967296
 instance (s : Str) : Decidable (UStrFits s) := by unfold UStrFits; exact inferInstance
